@@ -1,7 +1,10 @@
 #!/bin/bash
-# try_seed.sh <seed dir name> <property id> [extra check args]: apply a seeded change to /repo, run the check, undo it.
+# try_seed.sh <seed dir name> <property id> [extra check args]: apply a seeded change to a scratch worktree of /repo (never to /repo
+# itself), run the check against it (GWB_REPO names the tree the translator and the native build read) and remove the worktree.
 S=/verif/seeded/$1; P=$2; shift 2
-cd /repo && git apply $S/patch.diff || exit 2
-cd /verif && ./check $P "$@"; RC=$?
-git -C /repo checkout -- . 
-echo "seed=$(basename $S) property=$P exit=$RC"
+WT=$(mktemp -d /tmp/gwbv-seed-XXXXXX)
+git -C /repo worktree add --detach "$WT" HEAD > /dev/null 2>&1 || { echo "cannot create worktree"; exit 2; }
+( cd "$WT" && git apply "$S/patch.diff" ) || { git -C /repo worktree remove --force "$WT"; exit 2; }
+cd /verif && GWB_REPO="$WT" ./check $P "$@"; RC=$?
+git -C /repo worktree remove --force "$WT"; git -C /repo worktree prune
+echo "seed=$(basename $S) property=$P exit=$RC (evidence/$P.json now describes the seeded tree: re-run ./check $P to restore it)"
